@@ -54,6 +54,7 @@ class Inliner:
         self.cls = cls
         self.counter = 0
         self.inlined = []       # qualified names of helpers inlined (for the report)
+        self.owner_stack = []   # class in which the function being read is defined (for super())
 
     # ---- which calls are inlined ------------------------------------------------------
     def target(self, call):
@@ -63,6 +64,22 @@ class Inliner:
         if isinstance(f, ast.Attribute) and isinstance(f.value, ast.Name) and f.value.id == "self" and self.cls is not None \
                 and self.prog.lookup_method(self.cls, f.attr) is not None and f.attr not in ("encode", "decode", "__init__"):
             return self.prog.lookup_method(self.cls, f.attr), ast.Name(id="self", ctx=ast.Load())
+        if isinstance(f, ast.Attribute) and self.cls is not None:
+            mro = [c for c in self.prog.mro(self.cls) if hasattr(c, "methods")]
+            # Base.method(self, ..): the explicit call of an inherited implementation
+            if isinstance(f.value, ast.Name) and call.args and isinstance(call.args[0], ast.Name) and call.args[0].id == "self":
+                r = self.prog.resolve(self.mod, f.value.id)
+                if r and r[0] == "class" and r[1] in mro:
+                    m = self.prog.lookup_method(r[1], f.attr)
+                    if m is not None:
+                        return m, None
+            # super().method(..) / super(Class, self).method(..): the next implementation after the class the caller is defined in
+            v = f.value
+            if isinstance(v, ast.Call) and isinstance(v.func, ast.Name) and v.func.id == "super" and self.owner_stack \
+                    and self.owner_stack[-1] in mro:
+                for c in mro[mro.index(self.owner_stack[-1]) + 1:]:
+                    if f.attr in c.methods:
+                        return c.methods[f.attr], ast.Name(id="self", ctx=ast.Load())
         return None, None
 
     # ---- statements --------------------------------------------------------------------
@@ -207,7 +224,11 @@ class Inliner:
         body = self.returns_to_assign(body, retname, fn)
         for s in body:
             ast.fix_missing_locations(s)
-        body = self.body(body, depth + 1)
+        self.owner_stack.append(fn.cls)
+        try:
+            body = self.body(body, depth + 1)
+        finally:
+            self.owner_stack.pop()
         for s in pre:
             ast.fix_missing_locations(s)
         ret = ast.copy_location(ast.Name(id=retname, ctx=ast.Load()), call)
@@ -323,9 +344,10 @@ def normalize(stmts, value_returns=False):
     # a = self.b = value  ->  self.b = value; a = self.b   /   x = A if c else B  ->  if c: x = A else: x = B  (attribute targets)
     flat = []
     for s in stmts:
-        if isinstance(s, ast.Assign) and len(s.targets) == 2 and isinstance(s.targets[0], ast.Name) and isinstance(s.targets[1], ast.Attribute):
-            s1 = ast.copy_location(ast.Assign(targets=[s.targets[1]], value=s.value, lineno=s.lineno), s)
-            s2 = ast.copy_location(ast.Assign(targets=[s.targets[0]], value=copy.deepcopy(s.targets[1]), lineno=s.lineno), s)
+        if isinstance(s, ast.Assign) and len(s.targets) == 2 and {type(s.targets[0]), type(s.targets[1])} == {ast.Name, ast.Attribute}:
+            nm, at = (s.targets if isinstance(s.targets[0], ast.Name) else s.targets[::-1])
+            s1 = ast.copy_location(ast.Assign(targets=[at], value=s.value, lineno=s.lineno), s)
+            s2 = ast.copy_location(ast.Assign(targets=[nm], value=copy.deepcopy(at), lineno=s.lineno), s)
             for n in ast.walk(s2.value):
                 if hasattr(n, "ctx"):
                     n.ctx = ast.Load()
@@ -388,10 +410,93 @@ def _unnegate(s):
     return s
 
 
+def _byte_comp(v):
+    """bytearray(E for x in IT) / bytearray([E for x in IT]) -> (E, target, IT), one generator, no filter."""
+    if isinstance(v, ast.Call) and isinstance(v.func, ast.Name) and v.func.id == "bytearray" and len(v.args) == 1 and not v.keywords:
+        v = v.args[0]
+    else:
+        return None
+    if isinstance(v, (ast.GeneratorExp, ast.ListComp)) and len(v.generators) == 1 and not v.generators[0].ifs \
+            and not v.generators[0].is_async:
+        return v.elt, v.generators[0].target, v.generators[0].iter
+    return None
+
+
+def comps_to_loops(stmts):
+    """buf = bytearray(E for x in IT)  ->  buf = bytearray(); for x in IT: buf.append(E)   (and buf.extend(bytearray(E for ..)),
+    buf += bytearray(E for ..)): the loop the comprehension abbreviates, which is the form the layout reader knows."""
+    out = []
+    for s in stmts:
+        if isinstance(s, (ast.If, ast.For, ast.While, ast.Try, ast.With)):
+            s = copy.copy(s)
+            for f in ("body", "orelse", "finalbody"):
+                if getattr(s, f, None):
+                    setattr(s, f, comps_to_loops(getattr(s, f)))
+        name, comp, fresh = None, None, False
+        if isinstance(s, ast.Assign) and len(s.targets) == 1 and isinstance(s.targets[0], ast.Name):
+            name, comp, fresh = s.targets[0].id, _byte_comp(s.value), True
+        elif isinstance(s, ast.AugAssign) and isinstance(s.op, ast.Add) and isinstance(s.target, ast.Name):
+            name, comp = s.target.id, _byte_comp(s.value)
+        elif isinstance(s, ast.Expr) and isinstance(s.value, ast.Call) and isinstance(s.value.func, ast.Attribute) \
+                and s.value.func.attr == "extend" and isinstance(s.value.func.value, ast.Name) and len(s.value.args) == 1:
+            name = s.value.func.value.id
+            a = s.value.args[0]
+            comp = _byte_comp(a) or _byte_comp(ast.Call(func=ast.Name(id="bytearray", ctx=ast.Load()), args=[a], keywords=[]))
+        if comp is not None:
+            elt, tgt, it = comp
+            if fresh:
+                out.append(ast.copy_location(ast.Assign(targets=[ast.Name(id=name, ctx=ast.Store())], lineno=s.lineno,
+                                                        value=ast.Call(func=ast.Name(id="bytearray", ctx=ast.Load()), args=[], keywords=[])), s))
+            app = ast.Expr(value=ast.Call(func=ast.Attribute(value=ast.Name(id=name, ctx=ast.Load()), attr="append", ctx=ast.Load()),
+                                          args=[elt], keywords=[]))
+            loop = ast.For(target=tgt, iter=it, body=[ast.copy_location(app, s)], orelse=[])
+            out.append(ast.fix_missing_locations(ast.copy_location(loop, s)))
+            continue
+        out.append(s)
+    return out
+
+
+def unroll_displays(stmts):
+    """`for x, y in ((a, b), (c, d)): B`  ->  B[x:=a, y:=b]; B[x:=c, y:=d]  when the display is written out in the loop header, its
+    elements are plain reads (names, attributes, constants), and B neither rebinds the loop variables, nor stores what the
+    elements read, nor leaves the loop early."""
+    out = []
+    for s in stmts:
+        if isinstance(s, (ast.If, ast.For, ast.While, ast.Try, ast.With)):
+            s = copy.copy(s)
+            for f in ("body", "orelse", "finalbody"):
+                if getattr(s, f, None):
+                    setattr(s, f, unroll_displays(getattr(s, f)))
+        if isinstance(s, ast.For) and not s.orelse and isinstance(s.iter, (ast.Tuple, ast.List)) and s.iter.elts:
+            tg = s.target
+            names = [tg.id] if isinstance(tg, ast.Name) else (
+                [e.id for e in tg.elts] if isinstance(tg, ast.Tuple) and all(isinstance(e, ast.Name) for e in tg.elts) else None)
+            rows = []
+            for e in s.iter.elts:
+                row = [e] if isinstance(tg, ast.Name) else (list(e.elts) if isinstance(e, (ast.Tuple, ast.List)) else None)
+                if row is None or names is None or len(row) != len(names) or not all(_simple(x) for x in row):
+                    rows = None
+                    break
+                rows.append(row)
+            leaves = any(isinstance(x, (ast.Break, ast.Continue, ast.Return)) for b in s.body for x in ast.walk(b))
+            stored = {x.attr for b in s.body for x in ast.walk(b) if isinstance(x, ast.Attribute) and isinstance(x.ctx, ast.Store)}
+            read = {x.attr for r in (rows or []) for e in r for x in ast.walk(e) if isinstance(x, ast.Attribute)}
+            read_names = {x.id for r in (rows or []) for e in r for x in ast.walk(e) if isinstance(x, ast.Name)}
+            if rows and not leaves and not (set(names) & _assigned_names(s.body)) and not (stored & read) \
+                    and not ((read_names - {"self"}) & _assigned_names(s.body)):
+                for row in rows:
+                    for b in s.body:
+                        out.append(_Subst(dict(zip(names, row)), {}).visit(copy.deepcopy(b)))
+                continue
+        out.append(s)
+    return out
+
+
 def inlined_body(prog, cls, fn):
     """(statements of fn with helper calls inlined, list of helpers inlined)."""
     inl = Inliner(prog, cls.module if cls is not None else fn.module, cls)
-    body = inl.body(list(fn.node.body))
+    inl.owner_stack.append(fn.cls)
+    body = inl.body(comps_to_loops(unroll_displays(list(fn.node.body))))
     if fn.name == "decode":
         body = normalize(body)
     for s in body:
